@@ -107,3 +107,67 @@ def pose_action(B):
     B.take_obligations()
     for i in range(3):
         B.vc('pose_transform.successive_transforms_compose_on_position[%d]' % i, app('=', B.get(step2, 'position')[i], B.get(direct, 'position')[i]), functions=fp, timeout=120)
+    B.take_obligations()
+    ellipse(B)
+
+
+def ellipse(B):
+    """Ellipse(centre, covariance, sigma): the uncertainty ellipse is the sigma-scaled principal-axis ellipse of the covariance, under the
+    ASSUMED contract of Eigen::JacobiSVD on a symmetric positive semi-definite 2x2 matrix C:
+        C = U diag(s0, s1) U^T,  U^T U = I,  s0 >= s1 >= 0     (for such C the SVD is an eigen-decomposition: V = U)."""
+    from emit_smt import sub, lnot, implies
+    B.unit('src/geometry/Ellipse.cpp')
+    B.function('Ellipse__from_covariance', 'romea::core::Ellipse', 'Ellipse', sig='(const Eigen::Vector2d &, const Eigen::Matrix2d &, const double &)')
+    B.extract()
+    cx = B.vec('ell_centre', 2)
+    Cm = [B.real('cxx'), B.real('cxy'), B.real('cxy'), B.real('cyy')]          # symmetric by construction
+    sg = B.real('sigma')
+    ell = B.sx.default_value(('struct', 'Ellipse'))
+    B.call('Ellipse__from_covariance', ell, list(cx), list(Cm), sg)
+    obl = B.take_obligations()
+    fe = ['Ellipse__from_covariance']
+    U = [[app('f_svd2_u%d%d' % (i, j), *Cm) for j in range(2)] for i in range(2)]
+    s = [app('f_svd2_s%d' % i, *Cm) for i in range(2)]
+    contract = [app('>=', s[0], s[1]), app('>=', s[1], '0.0')]
+    for i in range(2):
+        for j in range(2):
+            contract.append(app('=', add(mul(U[0][i], U[0][j]), mul(U[1][i], U[1][j])), '1.0' if i == j else '0.0'))                 # U^T U = I
+            contract.append(app('=', add(mul(mul(U[i][0], s[0]), U[j][0]), mul(mul(U[i][1], s[1]), U[j][1])), Cm[2 * i + j]))      # U diag(s) U^T = C
+    dom = [app('>', sg, '0.0'), app('<=', sg, '10.0')]
+    major, minor, theta = ell['majorRadius_'], ell['minorRadius_'], ell['orientation_']
+    for i in range(2):
+        B.vc('ellipse.centre_is_the_position[%d]' % i, app('=', ell['centerPosition_'][i], cx[i]), functions=fe)
+    B.vc('ellipse.major_at_least_minor_at_least_zero', land(app('>=', major, minor), app('>=', minor, '0.0')), contract + dom, functions=fe, timeout=120)
+    # R(theta) diag(major^2, minor^2) R(theta)^T / sigma^2 = C, entry by entry, with theta = atan2(U10, U00)
+    def S(t): return app('f_sin', t)
+    def C(t): return app('f_cos', t)
+    B.libm('sin', [theta], 'true'); B.libm('cos', [theta], 'true')
+    Rt = [[C(theta), neg(S(theta))], [S(theta), C(theta)]]
+    d = [mul(major, major), mul(minor, minor)]
+    # lemmas: the first column of U is a unit vector, so atan2(U10, U00) has cosine U00 and sine U10; major^2 = s0 sigma^2, minor^2 = s1 sigma^2
+    B.vc('lemma.cos_sin_of_orientation_are_first_singular_vector', land(app('=', C(theta), U[0][0]), app('=', S(theta), U[1][0])), contract + dom, functions=fe, timeout=120)
+    B.vc('lemma.squared_radii_are_scaled_singular_values', land(app('=', d[0], mul(s[0], mul(sg, sg))), app('=', d[1], mul(s[1], mul(sg, sg)))), contract + dom, functions=fe, timeout=120)
+    ctg, stg, mjg, mng = B.real('cos_theta_gen'), B.real('sin_theta_gen'), B.real('major_gen'), B.real('minor_gen')
+    gen = [(C(theta), ctg), (S(theta), stg), (major, mjg), (minor, mng)]
+    gfacts = [app('=', ctg, U[0][0]), app('=', stg, U[1][0]), app('=', mul(mjg, mjg), mul(s[0], mul(sg, sg))), app('=', mul(mng, mng), mul(s[1], mul(sg, sg)))]
+    for i in range(2):
+        for j in range(i, 2):
+            lhs = add(mul(mul(Rt[i][0], d[0]), Rt[j][0]), mul(mul(Rt[i][1], d[1]), Rt[j][1]))
+            B.vc('ellipse.principal_axes_reproduce_the_covariance[%d,%d]' % (i, j), app('=', lhs, mul(mul(sg, sg), Cm[2 * i + j])), contract + dom + gfacts, functions=fe, timeout=240, subst=gen)
+    k = 0
+    for kind, cond, pc in dict.fromkeys(obl):
+        k += 1
+        B.vc('ellipse.domain.%s.%d' % (kind, k), implies(pc, cond), contract + dom, functions=fe, timeout=60)
+    # the two uncertaintyEllipse overloads hand the position and the xy covariance (for a pose: the leading 2x2 block) to that constructor
+    B.unit('src/geometry/Position2D.cpp')
+    B.unit('src/geometry/Pose2D.cpp')
+    B.function('uncertaintyEllipse_position', '', 'uncertaintyEllipse', sig='Position2D')
+    B.function('uncertaintyEllipse_pose', '', 'uncertaintyEllipse', sig='Pose2D')
+    B.extract()
+    e1 = B.call('uncertaintyEllipse_position', B.make('Position2D', position=list(cx), covariance=list(Cm)), sg)
+    P3 = [Cm[0], Cm[1], B.real('cxt'), Cm[2], Cm[3], B.real('cyt'), B.real('cxt'), B.real('cyt'), B.real('ctt')]
+    e2 = B.call('uncertaintyEllipse_pose', B.make('Pose2D', yaw=B.real('pose_yaw'), position=list(cx), covariance=P3), sg)
+    B.take_obligations()
+    for nm, ee in (('position', e1), ('pose', e2)):
+        same = land(*([app('=', ee[f], ell[f]) for f in ('orientation_', 'majorRadius_', 'minorRadius_')] + [app('=', ee['centerPosition_'][i], ell['centerPosition_'][i]) for i in range(2)]))
+        B.vc('uncertaintyEllipse.of_a_%s_is_the_ellipse_of_its_xy_covariance' % nm, same, functions=['uncertaintyEllipse_' + nm] + fe)
